@@ -283,6 +283,13 @@ func (s *session) snapshot(deep bool) (snap server.VerifSnapshot, ok bool) {
 // not wait for the store's tick, so that the stop finds additions and deletions still pending and has to write them out
 func (s *session) quiesce() string {
 	deadline := time.Now().Add(12 * time.Second)
+	for _, c := range s.clients {
+		if atomic.LoadInt32(&c.deaf) != 0 {
+			// a client that does not read keeps its consumer's goroutine in a send for ever: the broker will not go
+			// quiet, and the step is over when the other connections had time to be answered
+			deadline = time.Now().Add(1500 * time.Millisecond)
+		}
+	}
 	stable := 0
 	for {
 		snap, ok := s.snapshot(false)
@@ -577,6 +584,13 @@ func (s *session) exec(op string) string {
 	}
 	var err error
 	switch f[0] {
+	case "DEAF": // DEAF c 1|0: the client stops (resumes) reading its socket
+		if atob(f[2]) {
+			atomic.StoreInt32(&c.deaf, 1)
+			c.poisoned = true // frames written to it are no longer counted as received
+		} else {
+			atomic.StoreInt32(&c.deaf, 0)
+		}
 	case "DROP":
 		c.close()
 		s.gone[c.id] = true
